@@ -4,11 +4,11 @@
 import json, subprocess
 props = {
  'ELF loader aborted':['C16'],'ELF loader rounded':['C15'],'only the first after-hook':['C12'],'64-bit register accessors accepted EIP':['C07'],
- 'CS segment override':['C06','C01'],'rendering the trace panicked':['C18','C19'],'brk(0) returned':['C13'],"failing native hook left":['C12'],
+ 'CS segment override':['C06'],'rendering the trace panicked':['C18'],'brk(0) returned':['C13'],"failing native hook left":['C12'],
  'init_stack_program_start put':['C17'],'never returned for an empty area':['C10'],'mem_resize_section compared':['C10','C13'],
  'only checked its start address':['C10','C17'],'memory bound checks overflowed':['C08','C19'],'panicked on RSP arithmetic':['C19','C04'],
  'XORPS accepted':['C06'],'MOVZX r16':['C06','C19','C05'],'MOV moffs':['C06','C19','C05','C01'],'LEA added':['C05','C01'],
- '0x67 address-size':['C05','C19','C06'],'converting SupportedRegister::EIP':['C07','C19'],'SHR imm8/CL':['C01','C02','C06','C19'],
+ '0x67 address-size':['C05','C19','C06'],'converting SupportedRegister::EIP':['C07'],'SHR imm8/CL':['C01','C02','C06','C19'],
  'SHL imm8/CL':['C02','C06','C19'],'CMOVcc with a false':['C01','C06'],'CMOVAE moved':['C01'],'SETB did not':['C01'],
  'IDIV r/m8|16|32':['C01','C06'],'DIV reported':['C06'],'ADC r/m16|32|64, imm8':['C01','C02'],'ADC r/m8|16|32, r left':['C02'],'POP RSP / POP SP':['C04'],
 }
